@@ -474,6 +474,11 @@ class Gen:
         prev = [o for o in self.ops if o["k"] == "cursor_open"]
         if prev and self.rng.random() < 0.4:
             op = {"k": "cursor_open", "t": prev[-1]["t"], "share": True}
+            self.ops.append(op)
+            # two consumers of one result object, advanced alternately
+            for j in range(self.rng.randint(2, 5)):
+                self.ops.append({"k": "pull", "c": self.ncursors - 1 - (j % 2), "n": self.rng.choice([1, 1, 2, 10])})
+            return
         self.ops.append(op)
 
     def g_pull(self):
